@@ -14,7 +14,7 @@ LVars == {"a", "b", "c"}
 IdxKinds == {"m1", "zero", "last", "len"}
 ListOps ==
     [op : {"push", "reverse", "clear", "map", "filter", "len", "indexof_hit", "indexof_miss", "concat", "inner"}, x : LVars]
-    \cup [op : {"remove", "read", "set", "opset"}, x : LVars, i : IdxKinds]
+    \cup [op : {"remove", "read", "set", "opset", "opsub"}, x : LVars, i : IdxKinds]
     \cup [op : {"join", "eq", "joinalias"}, x : {"a", "b"}, y : LVars] \cup [op : {"join", "eq"}, x : {"c"}, y : LVars]
     \cup [op : {"alias", "clone"}, y : {"a", "b"}]          \* c = y   /   c = y.clone()
     \cup [op : {"litfrom"}, x : {"a"}]                       \* c = [a[0], a[1]]  (elements copied, not aliased)
@@ -22,7 +22,7 @@ ListOps ==
 MVars == {"m", "e", "n"}
 Keys == {"k1", "k2", "k3"}
 MapOps ==
-    [op : {"mset", "mread", "mopset", "replace", "mremove", "contains"}, x : MVars, k : Keys]
+    [op : {"mset", "mread", "mopset", "replace", "mremove", "contains", "msub"}, x : MVars, k : Keys]
     \cup [op : {"mlen", "mclear"}, x : MVars]
     \cup [op : {"malias", "mclone"}, y : {"m", "e"}]
     \cup [op : {"mlitfrom"}]          \* n = map literal whose value is read from a list element, then that element is overwritten
@@ -78,6 +78,9 @@ ListStmts(o, n) ==
       [] o.op = "opset" -> Pre(21 + 2 * n) \o <<Let("k", IdxExpr(o.x, o.i)),
                              IF ty \in {"opt", "nest"} THEN Assign(Idx(V(o.x), V("k")), "=", Arg(21 + 2 * n))
                              ELSE Assign(Idx(V(o.x), V("k")), "+", IF ty = "int" THEN I(5) ELSE S("z"))>>
+      \* a non-commutative op-assignment on an element
+      [] o.op = "opsub" -> IF ty = "int" THEN <<Let("k", IdxExpr(o.x, o.i)), Assign(Idx(V(o.x), V("k")), "-", I(3))>>
+                           ELSE <<Let("k", IdxExpr(o.x, o.i)), Print(Idx(V(o.x), V("k")))>>
       [] o.op = "join" -> <<Print(MCall(V(o.x), "join", <<V(o.y)>>))>>
       \* the result of join *is* the receiver: c becomes an alias of x
       [] o.op = "joinalias" -> <<Let("c", MCall(V(o.x), "join", <<V(o.y)>>)), Print(Bin("is", V("c"), V(o.x)))>>
@@ -119,6 +122,8 @@ MapStmts(o, n) ==
       [] o.op = "mread" -> <<IfElse(MCall(V(o.x), "contains_key", <<S(o.k)>>), <<Print(Idx(V(o.x), S(o.k)))>>, <<Print(S("absent"))>>)>>
       [] o.op = "mopset" -> IF ty = "opt" THEN <<Assign(Idx(V(o.x), S(o.k)), "=", Nil)>>
                             ELSE <<If(MCall(V(o.x), "contains_key", <<S(o.k)>>), <<Assign(Idx(V(o.x), S(o.k)), "+", I(100))>>)>>
+      [] o.op = "msub" -> IF ty = "opt" THEN <<Print(MCall(V(o.x), "contains_key", <<S(o.k)>>))>>
+                          ELSE <<If(MCall(V(o.x), "contains_key", <<S(o.k)>>), <<Assign(Idx(V(o.x), S(o.k)), "-", I(7))>>)>>
       [] o.op = "replace" -> <<Print(MCall(V(o.x), "replace", <<S(o.k), MVal(50 + n)>>))>>
       [] o.op = "mremove" -> <<Print(MCall(V(o.x), "remove", <<S(o.k)>>))>>
       [] o.op = "contains" -> <<Print(MCall(V(o.x), "contains_key", <<S(o.k)>>))>>
